@@ -8,12 +8,21 @@ CLASSES = [('navierstokes_2d_compressible', 'cns.cpp'),
            ('axi_cns', 'axi_cns.cpp'),                      # mmsname "axisymmetric_navierstokes_compressible"
            ('axi_cns_transient', 'axi_cns_transient.cpp')]
 
-def units(select=r'^eval_(q|exact)_', classes=CLASSES, extra=None):
+def units(select=r'^eval_(q|exact)_', classes=CLASSES, extra=None, tag='', key_suffix='.contract'):
     extra = extra or {}
-    return [Unit(cls, src, 'cns.spec.h', defines=['UNIT_%s 1' % cls] + extra.get(cls, []), select=select) for cls, src in classes]
+    return [Unit(cls, src, 'cns.spec.h', defines=['UNIT_%s 1' % cls] + extra.get(cls, []), select=select, tag=tag, key_suffix=key_suffix)
+            for cls, src in classes]
+
+def pinned_units():
+    """as-coded characterisation of the six KNOWN FINDINGS (axisymmetric viscous sources): the code must still equal the
+    recorded deviant operator (tau_rz = mu u_z, no hoop stress, axi_cns energy with +div(tau.u)); any OTHER change to these
+    functions fails `<function>.as_coded` and is reported as a new violation instead of hiding behind the known finding."""
+    d = ['CNS_DIAG_AXI_AS_CODED 1']
+    extra = {'axi_cns': d + ['DIAG_WORK_SIGN (-1)'], 'axi_cns_transient': d + ['DIAG_WORK_SIGN 1']}
+    return units(select=r'^eval_q_(rho_u|rho_w|rho_e|u|w|e)$', classes=CLASSES[2:], extra=extra, tag='@as_coded', key_suffix='.as_coded')
 
 def run(tier, seed):
-    return run_numeric('C03', units(), tier, seed, design_ref='4/C03')
+    return run_numeric('C03', units() + pinned_units(), tier, seed, design_ref='4/C03', lemmas=['lemma_energy_forms', 'lemma_jinv_forms', 'lemma_cyl_div'])
 
 def run_diag(tier='quick', seed=1):
     """NOT a check of C03 and never called by ./check: proves that the axisymmetric sources equal the *as-coded* operator
